@@ -214,8 +214,76 @@ pub fn arc_inspect_race(p: &Program) -> bool {
     false
 }
 
-pub fn in_class(class: &str, case: &Case) -> bool {
+/// F5b/F5c: an `unpark` next to non-atomic accesses in a shape loom mishandles: the target has a
+/// non-atomic access before its first `park`, the unparking thread performs a non-atomic access
+/// after the `unpark`, or the target is unparked more than once.
+pub fn unpark_na_unsafe(p: &Program) -> bool {
+    if !p.threads.iter().any(|ops| has_na_access(ops)) {
+        return false;
+    }
+    for (u, i, op) in p.ops() {
+        if let Op::Unpark { t } = op {
+            let tops = &p.threads[*t as usize];
+            let first_park = tops.iter().position(|o| matches!(o, Op::Park)).unwrap_or(tops.len());
+            if has_na_access(&tops[..first_park]) {
+                return true;
+            }
+            if has_na_access(&p.threads[u][i + 1..]) {
+                return true;
+            }
+            if p.count(|o| matches!(o, Op::Unpark { t: x } if x == t)) >= 2 {
+                return true;
+            }
+        }
+    }
+    false
+}
+
+/// F5d: a thread that parks at least twice and is unparked at least twice (park/unpark are no
+/// scheduling points, so only one relative order of the unparks and the parks is explored).
+pub fn park_unpark_twice(p: &Program) -> bool {
+    (0..p.n_threads()).any(|t| {
+        p.threads[t].iter().filter(|o| matches!(o, Op::Park)).count() >= 2
+            && p.count(|o| matches!(o, Op::Unpark { t: x } if *x as usize == t)) >= 2
+    })
+}
+
+/// F5e: a thread waits on a `Notify` and parks later, and the `Notify` is notified at least twice
+/// (a second `notify` that finds the waiter already runnable stores a park token in it).
+pub fn notify_then_park(p: &Program) -> bool {
+    p.threads.iter().any(|ops| {
+        let w = ops.iter().position(|o| matches!(o, Op::NfWait { .. }));
+        match w {
+            Some(i) => ops[i + 1..].iter().any(|o| matches!(o, Op::Park)) && p.count(|o| matches!(o, Op::NfNotify { .. })) >= 2,
+            None => false,
+        }
+    })
+}
+
+/// F11: a non-atomic write performed while holding only a read guard of an RwLock.
+pub fn write_under_read_lock(p: &Program) -> bool {
+    p.threads.iter().any(|ops| {
+        let mut r = 0i32;
+        let mut w = 0i32;
+        for o in ops {
+            match o {
+                Op::Read { .. } | Op::TryRead { .. } => r += 1,
+                Op::UnlockR { .. } => r = (r - 1).max(0),
+                Op::Write { .. } | Op::TryWrite { .. } => w += 1,
+                Op::UnlockW { .. } => w = (w - 1).max(0),
+                Op::CellWrite { .. } | Op::ArcCellWrite { .. } | Op::AtomWithMut { .. } if r > 0 && w == 0 => return true,
+                _ => {}
+            }
+        }
+        false
+    })
+}
+
+pub fn in_class(class: &str, case: &Case, labels: &[String]) -> bool {
     let p = &case.prog;
+    if let Some(l) = class.strip_prefix("label:") {
+        return labels.iter().any(|x| x.strip_prefix("class:") == Some(l));
+    }
     match class {
         "k7a" => k7a(p),
         "k7b" => k7b(p),
@@ -224,6 +292,10 @@ pub fn in_class(class: &str, case: &Case) -> bool {
         "try_recv_race" => try_recv_race(p),
         "unpark_blocked_target" => unpark_blocked_target(p),
         "unpark_no_park" => unpark_no_park(p),
+        "unpark_na_unsafe" => unpark_na_unsafe(p),
+        "park_unpark_twice" => park_unpark_twice(p),
+        "notify_then_park" => notify_then_park(p),
+        "write_under_read_lock" => write_under_read_lock(p),
         "sc_fence_pair" => sc_fence_pair(p),
         "arc_inspect_race" => arc_inspect_race(p),
         "exact" => false, // only the reproducer itself
@@ -232,12 +304,12 @@ pub fn in_class(class: &str, case: &Case) -> bool {
 }
 
 /// Which known finding (status "known") explains a failure of kind `kind` on `case`?
-pub fn attribute<'a>(kf: &'a KnownFile, case: &Case, kind: &str) -> Option<&'a Finding> {
+pub fn attribute<'a>(kf: &'a KnownFile, case: &Case, kind: &str, labels: &[String]) -> Option<&'a Finding> {
     kf.findings.iter().find(|f| {
         f.status == "known"
             && f.properties.iter().any(|p| p == &case.prop)
             && f.kinds.iter().any(|k| k == kind)
-            && (in_class(&f.class, case) || f.reproducer.prog == case.prog && f.reproducer.x == case.x)
+            && (in_class(&f.class, case, labels) || f.reproducer.prog == case.prog && f.reproducer.x == case.x)
     })
 }
 
@@ -245,6 +317,6 @@ pub fn attribute<'a>(kf: &'a KnownFile, case: &Case, kind: &str) -> Option<&'a F
 pub fn any_class(kf: &KnownFile, case: &Case) -> Option<String> {
     kf.findings
         .iter()
-        .find(|f| f.status == "known" && f.properties.iter().any(|p| p == &case.prop) && in_class(&f.class, case))
+        .find(|f| f.status == "known" && f.properties.iter().any(|p| p == &case.prop) && in_class(&f.class, case, &[]))
         .map(|f| f.id.clone())
 }
